@@ -713,6 +713,7 @@ func TestVfC11Concurrent(t *testing.T) {
 		var mu sync.Mutex
 		var stop atomic.Bool
 		var wg sync.WaitGroup
+		var livePicks, liveMuts int64
 		guard := func(f func()) {
 			defer func() {
 				if r := recover(); r != nil {
@@ -740,6 +741,7 @@ func TestVfC11Concurrent(t *testing.T) {
 						}
 						seq, c := e.drain(e.policy.Pick(e.query(q)))
 						picks++
+						atomic.AddInt64(&livePicks, 1)
 						offered += len(seq)
 						if c {
 							capped++
@@ -770,6 +772,7 @@ func TestVfC11Concurrent(t *testing.T) {
 				op := []string{"add", "remove", "up", "down"}[mr.Intn(4)]
 				guard(func() { e.apply(vfC11Op{op, h}) })
 				n++
+				atomic.AddInt64(&liveMuts, 1)
 				if n%16 == 0 {
 					time.Sleep(time.Millisecond)
 				}
@@ -778,7 +781,22 @@ func TestVfC11Concurrent(t *testing.T) {
 			rec.Mutators = n
 			mu.Unlock()
 		}()
-		time.Sleep(time.Duration(millis) * time.Millisecond)
+		// at least the requested time, and until both sides really ran (a loaded machine may not
+		// schedule the mutator at all within the time), at most 10 s
+		for t0 := time.Now(); ; {
+			time.Sleep(10 * time.Millisecond)
+			el := time.Since(t0)
+			busy := atomic.LoadInt64(&livePicks) >= 200 && atomic.LoadInt64(&liveMuts) >= 50
+			if (el >= time.Duration(millis)*time.Millisecond && busy) || el > 10*time.Second {
+				break
+			}
+			mu.Lock()
+			dead := rec.Panics > 0
+			mu.Unlock()
+			if dead && el >= time.Duration(millis)*time.Millisecond {
+				break
+			}
+		}
 		stop.Store(true)
 		done := make(chan struct{})
 		go func() { wg.Wait(); close(done) }()
